@@ -1606,10 +1606,25 @@ class LocalHam1DInit(Contract):
         if not isinstance(m, SymMap):
             return {"map": False}
         nb = L - 1 + (1 if v.old.cyclic else 0)
+        # as a goal the universal statement is proved for skolem constants (equivalent, and a failure comes with a
+        # model); as an assumption it is used through its ground instances at the keys this iteration tests / stores
+        # and at the skolem constants of the goals (quantifier-free queries: sat answers are meaningful)
+        if getattr(cx, "inv_mode", "assume") == "check":
+            q = self.skolem
+        else:
+            b = nxt(v.i, L)
+            q = lambda body: And(body(z3.Int("x!sk"), z3.Int("y!sk")), body(v.i, b), body(b, v.i))
         return {"i<=nbonds": And(0 <= v.i, v.i <= nb),
-                "keys": z3.ForAll([X_, Y_], m.has(X_, Y_) == Or(m0.has(X_, Y_), self.placed(cx, X_, Y_, v.i, v.old.cyclic))),
-                "values": z3.ForAll([X_, Y_], Implies(m.has(X_, Y_),
-                                                      m.get(X_, Y_) == If(m0.has(X_, Y_), m0.get(X_, Y_), g["default"].z)))}
+                "keys": q(lambda x, y: m.has(x, y) == Or(m0.has(x, y), self.placed(cx, x, y, v.i, v.old.cyclic))),
+                "values": q(lambda x, y: Implies(m.has(x, y), m.get(x, y) == If(m0.has(x, y), m0.get(x, y), g["default"].z)))}
+
+    @staticmethod
+    def forall(body):
+        return z3.ForAll([X_, Y_], body(X_, Y_))
+
+    @staticmethod
+    def skolem(body):
+        return body(z3.Int("x!sk"), z3.Int("y!sk"))
 
     @property
     def loops(self):
@@ -1629,10 +1644,10 @@ class LocalHam1DInit(Contract):
             nb = L - 1 + (1 if a.cyclic else 0)
             d["H1-passed-through"] = ev[0][2] is g["H1"]
             if g["default"] is not None:
-                d["default-placed-exactly-on-absent-bonds-(i,(i+1) mod L), i<L-1+cyclic"] = z3.ForAll(
-                    [X_, Y_], m.has(X_, Y_) == Or(m0.has(X_, Y_), self.placed(cx, X_, Y_, nb, a.cyclic)))
-                d["supplied-terms-kept, placed-terms-are-the-default"] = z3.ForAll(
-                    [X_, Y_], Implies(m.has(X_, Y_), m.get(X_, Y_) == If(m0.has(X_, Y_), m0.get(X_, Y_), g["default"].z)))
+                d["default-placed-exactly-on-absent-bonds-(i,(i+1) mod L), i<L-1+cyclic"] = self.skolem(
+                    lambda x, y: m.has(x, y) == Or(m0.has(x, y), self.placed(cx, x, y, nb, a.cyclic)))
+                d["supplied-terms-kept, placed-terms-are-the-default"] = self.skolem(
+                    lambda x, y: Implies(m.has(x, y), m.get(x, y) == If(m0.has(x, y), m0.get(x, y), g["default"].z)))
             else:
                 d["no-default: supplied-terms-unchanged"] = And(m.dom == m0.dom, m.val == m0.val)
         return d
